@@ -1,6 +1,7 @@
 (** Model of the BM25 pieces of index/score.go over exact rationals: tfScore, the sum over the term
     frequencies (scoreLineBM25 / scoreFileBM25) and boostScore.  k and b come from
-    Generated/ScoreConsts.v.  Term-frequency extraction (calculateTermFrequency) is not modelled. *)
+    Generated/ScoreConsts.v.  Term-frequency extraction (calculateTermFrequency), scoreFileBM25 and scoreLineBM25 are in
+    Model/ScoreKind.v. *)
 From Coq Require Import QArith Qabs.
 From ZV Require Import Lib.Base Generated.ScoreConsts Model.Score.
 Open Scope Q_scope.
